@@ -189,6 +189,13 @@ class Evaluator:
                 body = z3.Implies(B(band(j >= 0, compare("<", j, m.n))), B(bnot(m.f(j))))
                 # path-specific: goes into the path condition only (never a global assumption)
                 self.path.conds.append(z3.ForAll([j], body))
+                src = m.__dict__.get("_not_of")
+                if src is not None:
+                    # "all entries of src are True" on this path: its compress is the identity
+                    src.__dict__["_all_true"] = True
+                    k = fresh("k")
+                    self.path.conds.append(B(compare("==", V.count_term(src), src.n)))
+                    self.path.conds.append(z3.ForAll([k], z3.Implies(k >= 0, V.sel_fn(src)(k) == k)))
             return d
         if type(cond).__name__ == "NotAny":
             return not self.decide(AnyOf(cond.neg), lineno)
@@ -865,7 +872,10 @@ class Evaluator:
             if isinstance(v, bool):
                 # python ~True == -2 (truthy!) ; numba types it as boolean not
                 return IntInvert(v)
-            return self.map1(bnot, v, kind="b")
+            r_ = self.map1(bnot, v, kind="b")
+            if isinstance(v, Arr) and isinstance(r_, Arr):
+                r_.__dict__["_not_of"] = v
+            return r_
         raise Unsupported("unary op")
 
     def ex_BoolOp(self, node, env):
@@ -1217,6 +1227,9 @@ class Evaluator:
         if isinstance(idx, tuple) and len(idx) == 2 and isinstance(idx[0], SliceV) and idx[1] is None \
                 and idx[0].lo is None and idx[0].hi is None:
             return Col2D(a)
+        if isinstance(idx, tuple) and len(idx) == 2 and idx[0] is None and isinstance(idx[1], SliceV) \
+                and idx[1].lo is None and idx[1].hi is None:
+            return Row2D(a)
         if isinstance(idx, SliceV):
             if idx.lo is None and idx.hi is None and idx.step is None:
                 return a
@@ -1260,6 +1273,11 @@ class Evaluator:
                 return PitComp(p, idx)
             raise Unsupported("pit row selection %r (line %d)" % (idx, lineno))
         r, c = idx
+        if isinstance(r, SliceV) and r.lo is None and r.hi is None and is_array(c) and not isinstance(c, Comp) \
+                and not is_z3(c.n) and not isinstance(c.n, Count):
+            cols = [c.f(k) for k in range(int(c.n))]
+            if all(isinstance(x, int) for x in cols):
+                return PitCols(p, cols)
         if isinstance(r, SliceV) and r.step is None and not (r.lo is None and r.hi is None):
             sub = PitSlice(p, 0 if r.lo is None else r.lo, p.n if r.hi is None else r.hi)
             if isinstance(c, SliceV) and c.lo is None and c.hi is None:
@@ -1267,6 +1285,10 @@ class Evaluator:
             return self.pit_get(sub, (SliceV(None, None, None), c), lineno, env)
         if isinstance(r, SliceV) and isinstance(c, SliceV) and c.lo is None and c.hi is None:
             return p
+        if is_array(r) and r.kind == "b" and not isinstance(r, Comp) and isinstance(c, SliceV) \
+                and c.lo is None and c.hi is None:
+            self.same_len(p.n, r.n, lineno)
+            return PitComp(p, r)
         if isinstance(r, SliceV) and r.lo is None and r.hi is None and is_scalar(c):
             return ColView(p, c)
         if is_scalar(r) and is_scalar(c):
@@ -1305,13 +1327,24 @@ class Evaluator:
             return
         if isinstance(base, RowView):
             return self.store_subscript(base.pit, (base.i, idx), v, lineno, env, aug)
+        if isinstance(base, Pit) and isinstance(idx, tuple) and isinstance(idx[0], Col2D) and isinstance(idx[1], Row2D):
+            return self.outer_store(base, idx[0].arr, idx[1].arr, v, lineno)
         if isinstance(base, Pit):
             r, c = idx
             if isinstance(r, SliceV) and r.lo is None and r.hi is None and is_scalar(c):
                 if is_array(v):
+                    if isinstance(v, Comp) and (same_term(base.n, V.count_term(v.mask)) or
+                                                (isinstance(base.n, Count) and base.n.mask is v.mask)):
+                        # the column has one row per selected element: positional view of the selection
+                        self.add_sel_axioms(v.mask)
+                        sel_, vf0 = V.sel_fn(v.mask), v.f
+                        v = Arr(V.count_term(v.mask), lambda k: vf0(sel_(V.I(k))), v.kind)
                     if isinstance(v, Comp):
-                        self.safety("shape", False, lineno)
-                        raise Unsupported("compressed array stored into a full column")
+                        # lengths must agree: number of selected elements == rows of the column
+                        self.safety("shape", compare("==", base.n, V.count_term(v.mask)), lineno)
+                        self.add_sel_axioms(v.mask)
+                        sel_, vf0 = V.sel_fn(v.mask), v.f
+                        v = Arr(base.n, lambda k: vf0(sel_(V.I(k))), v.kind)
                     self.same_len(base.n, v.n, lineno)
                     f = v.f
                 else:
@@ -1450,6 +1483,30 @@ class Evaluator:
             return self.fancy_store(a, idx, v, lineno, put, old)
         raise Unsupported("store index %r (line %d)" % (idx, lineno))
 
+    def outer_store(self, base, rows, cols, v, lineno):
+        """pit[rows[:, None], cols[None, :]] = other[:, cols] with rows = the positions selected by a mask
+        (np.arange(n)[mask]) and a concrete column list: row n of the selection receives row rank(n) of
+        the right-hand side"""
+        if not (isinstance(rows, Comp) and isinstance(v, PitCols)):
+            raise Unsupported("outer-index store (line %d)" % lineno)
+        if is_z3(cols.n) or isinstance(cols.n, Count):
+            raise Unsupported("outer-index store with symbolic columns (line %d)" % lineno)
+        clist = [cols.f(k) for k in range(int(cols.n))]
+        if clist != v.cols:
+            self.safety("shape", False, lineno)
+            raise Unsupported("column lists of an outer-index store differ (line %d)" % lineno)
+        j0 = fresh("s")
+        ident = rows.f(j0)
+        if not (is_z3(ident) and ident.eq(j0)):
+            raise Unsupported("outer-index store through a non-identity row selection (line %d)" % lineno)
+        mask = rows.mask
+        self.add_sel_axioms(mask)
+        self.safety("shape", compare("==", V.count_term(mask), v.pit.n), lineno)
+        rank = z3.Function("rank!%s" % V.sel_fn(mask).name(), z3.IntSort(), z3.IntSort())
+        src = v.pit.snapshot_f()
+        for c in clist:
+            base.set_col(c, (lambda n, _c=c, _o=base.snapshot_f(): ite(mask.f(n), src(rank(V.I(n)), _c), _o(n, _c))))
+
     def fancy_aug(self, a, idx, opname, v, lineno):
         old = a.snapshot().f
         sym = "+" if opname == "Add" else "-"
@@ -1519,6 +1576,22 @@ class Evaluator:
         if not is_array(v):
             put(lambda j: ite(hit(j), v, old(j)))
             return
+        if isinstance(idx, Comp) and isinstance(v, Comp):
+            self.same_mask(idx.mask, v.mask, lineno)
+            inv = z3.Function("inv!%d" % next(V._counter), z3.IntSort(), z3.IntSort())
+            gi, vf, mk_ = idx.f, v.f, idx.mask
+            jj = fresh("j")
+            self.path.facts.append(z3.ForAll([jj], z3.Implies(
+                z3.And(jj >= 0, B(compare("<", jj, mk_.n)), B(mk_.f(jj))), inv(V.I(gi(jj))) == jj)))
+            put(lambda j: ite(hit(j), vf(inv(V.I(j))), old(j)))
+            return
+        if isinstance(v, Comp) and not isinstance(idx, Comp):
+            # positional view of the compressed right-hand side: element k is the k-th selected one
+            self.add_sel_axioms(v.mask)
+            sel_, vf0 = V.sel_fn(v.mask), v.f
+            v = Arr(V.count_term(v.mask), lambda k: vf0(sel_(V.I(k))), v.kind)
+        if isinstance(idx, Comp):
+            raise Unsupported("fancy store with mixed compressed operands (line %d)" % lineno)
         self.same_len(idx.n, v.n, lineno)
         # inverse position: an uninterpreted function inv with idx[inv(j)] == j for hit positions
         inv = z3.Function("inv!%d" % next(V._counter), z3.IntSort(), z3.IntSort())
